@@ -13,9 +13,11 @@ if kind == "fixed":
     d = os.path.join(ROOT, "regress", rec["property"]); os.makedirs(d, exist_ok=True)
     dst = os.path.join(d, name + ".json"); shutil.copy(replay, dst)
     kf["findings"].append({"status": "fixed", "property": rec["property"], "signature": rec["signature"],
-                           "commit": commit, "what": what, "regress": os.path.relpath(dst, ROOT)})
+                           "commit": commit, "what": what, "regress": os.path.relpath(dst, ROOT),
+                           "record": "fixed: property=%s %s %s" % (rec["property"], commit, what)})
 else:
     what = sys.argv[3]
     kf["findings"].append({"status": "known", "property": rec["property"], "signature": rec["signature"],
-                           "what": what, "example": {"part": rec["part"], "case": rec["case"]}})
+                           "what": what, "example": {"part": rec["part"], "case": rec["case"]},
+                           "record": "known: property=%s %s" % (rec["property"], what)})
 json.dump(kf, open(os.path.join(ROOT, "known_findings.json"), "w"), indent=1); print("recorded", rec["signature"])
